@@ -238,6 +238,9 @@ def cli_cases(draw, tier):
     record['parameters'] = {'specific_yield': sy, 'transmissivity': T}
     record['curvature'] = draw(st.sampled_from(
         ['0', '0', '0.0', '2.36', '0.5', '10']))
+    # a second set-curvature attempt with another value (refused today)
+    record['curvature2'] = draw(st.sampled_from(
+        [None, None, '0', '6.0', '0.25']))
     return record
 
 
@@ -279,6 +282,18 @@ def check_cli(case):
             raise Reject('recession main body ambiguous')
         guarded(wf.recession)
         guarded(wf.set_curvature, case['curvature'])
+        if case.get('curvature2') is not None:
+            # whether the second attempt is refused (as today) or carried
+            # out, the simulation must use the curvature then in force
+            try:
+                wf.set_curvature(case['curvature2'])
+            except Exception:  # pylint: disable=broad-except
+                labels_extra = 'second-set-curvature-refused'
+            else:
+                curvature = float(case['curvature2'])
+                labels_extra = 'second-set-curvature-accepted'
+        else:
+            labels_extra = None
         connection = wf.connect()
         try:
             _, per_level = read_curve(connection, 'recession')
@@ -348,6 +363,8 @@ def check_cli(case):
     knots = sorted(knots)
     labels = {sy_p['type'], 'curvature-zero' if curvature == 0
               else 'curvature-positive'}
+    if labels_extra:
+        labels.add(labels_extra)
     varying = len(set(et_values)) > 1
     if curvature == 0:
         z_hi, z_lo = ks[0] * h, ks[-1] * h
